@@ -246,7 +246,7 @@ pub fn run_c19(cx: &Ctx) -> i32 {
     let hex_texts: Vec<String> = vec!["", "a", "f", "F", "g", "9", "\u{1b}", "\u{1b}\u{1b}a", "xa", "Ga"].into_iter().map(String::from).collect();
     let tallies = par::run_workers(32, |_w, claimer| {
         engine::quiet_panics();
-        engine::set_sweep_horizons(300_000, 20_000);
+        engine::set_sweep_horizons(40_000, 5_000);
         let mut t = Tally::new();
         space.for_each(claimer, &mut |node, tag| {
             let facts = ast::facts(node);
